@@ -7,7 +7,8 @@
 #[cfg(not(feature = "std"))]
 use alloc::{vec, vec::Vec};
 
-use anyhow::ensure;
+use anyhow::{anyhow, ensure};
+use hashbrown::HashSet;
 use plonky2_maybe_rayon::*;
 use serde::{Deserialize, Serialize};
 
@@ -26,6 +27,7 @@ use crate::iop::ext_target::ExtensionTarget;
 use crate::iop::target::Target;
 use crate::plonk::circuit_data::{CommonCircuitData, VerifierOnlyCircuitData};
 use crate::plonk::config::{GenericConfig, Hasher};
+use crate::plonk::plonk_common::salt_size;
 use crate::plonk::verifier::verify_with_challenges;
 use crate::util::serialization::{Buffer, Read, Write};
 
@@ -152,7 +154,7 @@ impl<F: RichField + Extendable<D>, C: GenericConfig<D, F = F>, const D: usize>
         challenges: &ProofChallenges<F, D>,
         fri_inferred_elements: FriInferredElements<F, D>,
         params: &FriParams,
-    ) -> Proof<F, C, D> {
+    ) -> anyhow::Result<Proof<F, C, D>> {
         let CompressedProof {
             wires_cap,
             plonk_zs_partial_products_cap,
@@ -161,13 +163,13 @@ impl<F: RichField + Extendable<D>, C: GenericConfig<D, F = F>, const D: usize>
             opening_proof,
         } = self;
 
-        Proof {
+        Ok(Proof {
             wires_cap,
             plonk_zs_partial_products_cap,
             quotient_polys_cap,
             openings,
-            opening_proof: opening_proof.decompress(challenges, fri_inferred_elements, params),
-        }
+            opening_proof: opening_proof.decompress(challenges, fri_inferred_elements, params)?,
+        })
     }
 }
 
@@ -192,14 +194,95 @@ impl<F: RichField + Extendable<D>, C: GenericConfig<D, F = F>, const D: usize>
     ) -> anyhow::Result<ProofWithPublicInputs<F, C, D>> {
         let challenges =
             self.get_challenges(self.get_public_inputs_hash(), circuit_digest, common_data)?;
+        self.validate_shape(&challenges, common_data)?;
         let fri_inferred_elements = self.get_inferred_elements(&challenges, common_data);
         let decompressed_proof =
             self.proof
-                .decompress(&challenges, fri_inferred_elements, &common_data.fri_params);
+                .decompress(&challenges, fri_inferred_elements, &common_data.fri_params)?;
         Ok(ProofWithPublicInputs {
             public_inputs: self.public_inputs,
             proof: decompressed_proof,
         })
+    }
+
+    /// Checks that the compressed proof has the shape expected for `common_data` and contains an
+    /// entry for every query index in `challenges`, so that the inference and decompression steps
+    /// cannot index out of range.
+    fn validate_shape(
+        &self,
+        challenges: &ProofChallenges<F, D>,
+        common_data: &CommonCircuitData<F, D>,
+    ) -> anyhow::Result<()> {
+        let config = &common_data.config;
+        let params = &common_data.fri_params;
+        let cap_len = 1 << params.config.cap_height;
+        let CompressedProof {
+            wires_cap,
+            plonk_zs_partial_products_cap,
+            quotient_polys_cap,
+            openings,
+            opening_proof,
+        } = &self.proof;
+        ensure!(wires_cap.len() == cap_len);
+        ensure!(plonk_zs_partial_products_cap.len() == cap_len);
+        ensure!(quotient_polys_cap.len() == cap_len);
+        ensure!(openings.constants.len() == common_data.num_constants);
+        ensure!(openings.plonk_sigmas.len() == config.num_routed_wires);
+        ensure!(openings.wires.len() == config.num_wires);
+        ensure!(openings.plonk_zs.len() == config.num_challenges);
+        ensure!(openings.plonk_zs_next.len() == config.num_challenges);
+        ensure!(
+            openings.partial_products.len()
+                == config.num_challenges * common_data.num_partial_products
+        );
+        ensure!(openings.quotient_polys.len() == common_data.num_quotient_polys());
+        ensure!(openings.lookup_zs.len() == common_data.num_all_lookup_polys());
+        ensure!(openings.lookup_zs_next.len() == common_data.num_all_lookup_polys());
+
+        ensure!(opening_proof.commit_phase_merkle_caps.len() == params.reduction_arity_bits.len());
+        for cap in &opening_proof.commit_phase_merkle_caps {
+            ensure!(cap.len() == cap_len);
+        }
+        ensure!(opening_proof.final_poly.len() == params.final_poly_len());
+        let instance = common_data.get_fri_instance(challenges.plonk_zeta);
+        let rounds = &opening_proof.query_round_proofs;
+        ensure!(rounds.steps.len() == params.reduction_arity_bits.len());
+        // Distinct indices queried in the initial trees and at each reduction depth; the proof must
+        // contain exactly one entry for each of them.
+        let mut initial_indices = HashSet::new();
+        let mut step_indices = vec![HashSet::new(); rounds.steps.len()];
+        for &x_index in &challenges.fri_challenges.fri_query_indices {
+            let initial = rounds
+                .initial_trees_proofs
+                .get(&x_index)
+                .ok_or_else(|| anyhow!("Missing initial trees proof for a query index."))?;
+            initial_indices.insert(x_index);
+            ensure!(initial.evals_proofs.len() == instance.oracles.len());
+            for ((leaf, _), oracle) in initial.evals_proofs.iter().zip(&instance.oracles) {
+                ensure!(
+                    leaf.len() == oracle.num_polys + salt_size(oracle.blinding && params.hiding)
+                );
+            }
+            let mut index = x_index;
+            for ((step, seen), &arity_bits) in rounds
+                .steps
+                .iter()
+                .zip(step_indices.iter_mut())
+                .zip(&params.reduction_arity_bits)
+            {
+                index >>= arity_bits;
+                let query_step = step
+                    .get(&index)
+                    .ok_or_else(|| anyhow!("Missing FRI query step for a query index."))?;
+                seen.insert(index);
+                ensure!(query_step.evals.len() == (1 << arity_bits) - 1);
+            }
+        }
+        ensure!(rounds.initial_trees_proofs.len() == initial_indices.len());
+        for (step, seen) in rounds.steps.iter().zip(&step_indices) {
+            ensure!(step.len() == seen.len());
+        }
+        Ok(())
     }
 
     pub(crate) fn verify(
@@ -217,10 +300,11 @@ impl<F: RichField + Extendable<D>, C: GenericConfig<D, F = F>, const D: usize>
             &verifier_data.circuit_digest,
             common_data,
         )?;
+        self.validate_shape(&challenges, common_data)?;
         let fri_inferred_elements = self.get_inferred_elements(&challenges, common_data);
         let decompressed_proof =
             self.proof
-                .decompress(&challenges, fri_inferred_elements, &common_data.fri_params);
+                .decompress(&challenges, fri_inferred_elements, &common_data.fri_params)?;
         verify_with_challenges::<F, C, D>(
             decompressed_proof,
             public_inputs_hash,
